@@ -593,7 +593,7 @@ impl TOutputProtocol for TCompactOutputProtocol<&mut BytesMut> {
     }
     #[inline]
     fn write_double(&mut self, d: f64) -> Result<(), ThriftException> {
-        self.trans.write_f64(d);
+        self.trans.write_f64_le(d);
         Ok(())
     }
 
@@ -873,7 +873,7 @@ impl TOutputProtocol for TCompactOutputProtocol<&mut LinkedBytes> {
     }
     #[inline]
     fn write_double(&mut self, d: f64) -> Result<(), ThriftException> {
-        self.trans.bytes_mut().write_f64(d);
+        self.trans.bytes_mut().write_f64_le(d);
         Ok(())
     }
 
